@@ -1,5 +1,5 @@
 """C17 — randomised rules and random tiebreaks draw from the documented distributions."""
-import math
+import math, io, contextlib
 from fractions import Fraction
 from .. import gen, elect
 from ..common import Names, rat, condensed_map
@@ -28,7 +28,10 @@ RULE = ("cases = RandomDictator / BoostedRandomDictator on random profiles (1-6 
         "population is the current profile's ballots with their weights; the squares vector is fpv^2 normalised; the "
         "branch threshold is 1/(c-1); a tied first place is sampled as a whole); the model's round law (computed in Dist "
         "by the driver) is compared with the closed form evaluated independently; the whole run is compared with the "
-        "oracle reading of the model; plus the shuffle law for k <= 5 against 1/k!; non-trivial = two or more "
+        "oracle reading of the model; plus the shuffle law for k <= 5 against 1/k!; plus (20% of the cases) direct calls of "
+        "tiebreak_set with 'random', 'borda' or 'first_place' on profiles in which two candidates are mirror images of each "
+        "other: every group still tied on the score must be ordered by exactly one random.sample of the whole group "
+        "(the uniform draw) and reported in the drawn order, higher scores first; non-trivial = two or more "
         "candidates with votes; distinct = distinct (rule, profile, m, seed)")
 TRUSTED = ["the laws of random.choices, numpy.random.choice (categorical), random.uniform (uniform on [0,1]) and "
            "random.sample (sequential uniform picks) are assumed, not tested; no frequency test decides anything"]
@@ -51,6 +54,20 @@ def cases(rng, tier, shard, nshards, phase):
     if phase.startswith("search"):
         total *= 2
     for _ in range(total // nshards):
+        if rng.random() < 0.2:
+            # a direct call of tiebreak_set: 'random', or a scored rule that leaves some of the candidates tied on the
+            # score and must finish with a uniform draw among exactly those
+            spec = gen.gen_ranked_spec(rng, nmin=2, nmax=6, ties=False, partial=True, bmin=0, bmax=6)
+            if rng.random() < 0.5 and len(spec["c"]) >= 3:
+                # mirror every ballot in two candidates: they are tied on every positional score
+                a, b = rng.sample(spec["c"], 2)
+                sw = {a: b, b: a}
+                spec["b"] = spec["b"] + [{"r": [[sw.get(c, c) for c in pos] for pos in bl["r"]], "w": bl["w"], "s": []}
+                                         for bl in spec["b"]]
+            k = rng.randint(2, len(spec["c"]))
+            yield {"op": "tiebreak", "spec": spec, "set": sorted(rng.sample(spec["c"], k)),
+                   "tb": rng.choice(["random", "borda", "first_place", "first_place"]), "rs": rng.randint(0, 10 ** 9)}
+            continue
         rule = rng.choice(["RandomDictator", "BoostedRandomDictator"])
         case = c01.gen_case(rng, rule)
         case["op"] = "run" if rng.random() < 0.7 else "law"
@@ -94,6 +111,59 @@ def run_case(vk, case):
         return {"req": {"op": "shuffle_law", "n": n},
                 "expect": {"ok": {"probs": [rat(Fraction(1, math.factorial(n)))] * math.factorial(n), "mass": "1"}},
                 "monitors": [], "tags": tags}
+    if case["op"] == "tiebreak":
+        import random as _random
+        spec, tb, rset = case["spec"], case["tb"], case["set"]
+        names = Names(spec["names"])
+        tags.append(f"tiebreak:{tb}")
+        profile = gen.build_profile(vk, spec)
+        if tb != "random" and any(not b["r"] for b in spec["b"]):
+            return None
+        n = len(spec["c"])
+        if tb == "random":
+            classes = [set(rset)]
+        else:
+            sc = ref_scores(spec, [1] if tb == "first_place" else list(range(n, 0, -1)))
+            by = {}
+            for c in rset:
+                by.setdefault(sc[c], set()).add(c)
+            classes = [by[v] for v in sorted(by, reverse=True)]
+        if any(len(g) > 1 for g in classes):
+            tags.append("tiebreak:fallback-needed")
+        from votekit.utils import tiebreak_set
+        log = elect.RandLog()
+        _random.seed(case["rs"])
+        try:
+            with log.recording(), contextlib.redirect_stdout(io.StringIO()):
+                out = tiebreak_set(frozenset(spec["names"][c] for c in rset), profile, tb)
+        except Exception as ex:     # noqa: BLE001
+            fail("tiebreak-raises", f"{type(ex).__name__}: {ex}")
+            return {"req": None, "expect": None, "monitors": monitors, "tags": tags, "nontrivial": True}
+        order = [sorted(names.idx[str(c)] for c in g) for g in out]
+        flat = [c for g in order for c in g]
+        if any(len(g) != 1 for g in order) or sorted(flat) != sorted(rset):
+            fail("tiebreak-not-a-strict-order-of-the-set", f"{order} for {rset}")
+        else:
+            pos = {c: i for i, c in enumerate(flat)}
+            want_seq = [c for g in classes for c in sorted(g)]
+            cls_of = {c: i for i, g in enumerate(classes) for c in g}
+            if [cls_of[c] for c in flat] != sorted(cls_of[c] for c in flat):
+                fail("tiebreak-order-ignores-the-score", f"order {flat}, classes of equal score highest first {[sorted(g) for g in classes]}")
+            samples = [c for c in log.calls if c[0] == "sample"]
+            need = [g for g in classes if len(g) > 1]
+            pops = [set(names.idx[str(x)] for x in c[1]) for c in samples]
+            if sorted(map(sorted, pops)) != sorted(map(sorted, need)) or any(c[2] != len(c[1]) for c in samples):
+                fail("tied-candidates-not-drawn-uniformly",
+                     f"groups still tied {[sorted(g) for g in need]}: each needs one draw of a full random order "
+                     f"(random.sample of the whole group); draws made over {[sorted(x) for x in pops]}")
+            else:
+                for c in samples:
+                    drawn = [names.idx[str(x)] for x in c[3]]
+                    if [x for x in flat if x in set(drawn)] != drawn:
+                        fail("tiebreak-order-is-not-the-drawn-order", f"drawn {drawn}, reported {flat}")
+                        break
+        req = {"op": "tiebreak_set", "set": rset, "tb": tb, "pri": flat, "profile": gen.model_profile(spec)}
+        return {"req": req, "expect": {"ok": [[c] for c in flat], "kind": "tiebreak-order"}, "monitors": monitors, "tags": tags, "nontrivial": True}
     rule, cfg, spec = case["rule"], dict(case["cfg"]), case["spec"]
     names = Names(spec["names"])
     if case["op"] == "law":
@@ -222,6 +292,9 @@ def run_case(vk, case):
 
 
 def compare(model, expect):
+    if expect.get("kind") == "tiebreak-order":
+        exp = {"ok": expect["ok"]}
+        return None if model == exp else f"tiebreak_set: model {str(model)[:200]} vs implementation {str(exp)[:200]}"
     if "ok" in expect and isinstance(expect["ok"], dict) and ("probs" in expect["ok"] or "rd" in expect["ok"]):
         return None if model == expect else f"law: model {str(model)[:300]} vs closed form {str(expect)[:300]}"
     return elect.compare_states(model, expect)
